@@ -1041,7 +1041,7 @@ fn same_shape(o: &crate::ops::Op, e: &Exp) -> bool {
 fn run(ctx: &Ctx) {
     let plans = [GenPlan {
         gen: "builder",
-        cases: ctx.tier.pick(60_000, 1_500_000),
+        cases: ctx.tier.pick(400_000, 4_000_000),
         min_len: 0,
         max_len: ctx.tier.pick(600, 2500),
     }];
